@@ -174,7 +174,7 @@ def _run_rename(args):
     try:
         copy_tree(tmp)
         try:
-            n = renames.apply(tmp, kind, key)
+            n = renames.apply_reshape(tmp, kind, key) if kind in renames.RESHAPES else renames.apply(tmp, kind, key)
         except Exception as e:
             return (name, "skipped", "renaming not applicable here (%s)" % type(e).__name__, [])
         if not n:
@@ -206,7 +206,7 @@ def run(pid, mod, seed=0, verbose=True):
     if not base_keys:
         try:
             from . import renames
-            rjobs = [(pid, mod.__name__, kind, key, base_keys) for kind, key in renames.variants(REPO)]
+            rjobs = [(pid, mod.__name__, kind, key, base_keys) for kind, key in renames.variants(REPO) + renames.reshape_variants(REPO)]
         except Exception:
             rjobs = []
     with multiprocessing.Pool(min(16, len(jobs) + len(ajobs) + len(rjobs))) as pool:
@@ -228,7 +228,7 @@ def run(pid, mod, seed=0, verbose=True):
     if verbose and quiet_ok:
         print("  selftest %d archived behaviour-preserving patches: silent" % quiet_ok)
     if verbose and rresults:
-        print("  selftest %d mechanical renamings (locals / parameters / private functions / instance attributes): %d silent, %d not" % (
+        print("  selftest %d mechanical renamings and reshapings (locals / parameters / private functions / instance attributes; swapped branches / mirrored comparisons / named results and tests): %d silent, %d not" % (
             len([r for r in rresults if r[1] != "skipped"]), r_ok, len(r_notes)))
         for name, status, msg, new in r_notes[:10]:
             print("  selftest-note %-40s %s" % (name, msg[:160]))
